@@ -221,7 +221,7 @@ fn run(variant: usize) -> CaseOut {
     match variant {
         0..=3 => {
             let op = if variant < 2 { "query" } else { "mutation" };
-            let query = gen_operation(op, GenCfg::default());
+            let query = gen_operation(op, GenCfg::default().for_flavour(flavour == Flavour::Static));
             // baseline: fault-free, everything ready at once, FIFO
             set_latency(0, 0);
             let base = run_request("baseline", flavour, 0, &query, Some(Params::default()));
@@ -280,7 +280,7 @@ fn run(variant: usize) -> CaseOut {
 
 /// Subscription variant: one root field, events delivered one at a time.
 fn run_subscription(flavour: Flavour, out: &mut CaseOut) {
-    let (query, roots) = gen_subscription(GenCfg { max_fields: 10, ..GenCfg::default() }, 1, false);
+    let (query, roots) = gen_subscription(GenCfg { max_fields: 10, ..GenCfg::default() }.for_flavour(flavour == Flavour::Static), 1, false);
     let (key, field, _) = roots[0].clone();
     let n_events = 1 + draw(2);
     let mut events = vec![];
